@@ -319,6 +319,16 @@ def _check_networks():
                            'ch/c09_oracle.py' % (sorted(defined), sorted(NETWORKS)))
 
 
+# conditions that demand a refusal the property does not state (path_expand does not range-check keyword values, accepts
+# 'network' as a level name and passes empty levels through; HDKey.subkey_for_path refuses such paths later): they are
+# kept in the generated files as observations but are not registered as checks
+NOT_REGISTERED = ('refuse_kw_', 'refuse_list_big', 'refuse_list_change', 'refuse_full_big', 'refuse_name_network_',
+                  'refuse_empty_level_')
+# listed finding: a multisig wallet asked for a key of another witness type keeps its own path shape
+MIXED_MULTISIG_DEVIATIONS = ('mixed__testnet_segwit_multisig__asks_legacy', 'mixed__testnet_p2sh_segwit_multisig__asks_legacy',
+                             'mixed__testnet_legacy_multisig__asks_segwit', 'mixed__testnet_legacy_multisig__asks_p2sh_segwit')
+
+
 def jobs(tier):
     _check_fresh()
     _check_networks()
@@ -326,7 +336,10 @@ def jobs(tier):
     for c in conditions():
         if tier == 'quick' and not c.quick:
             continue
-        j = Job(c.name, engine='ch', ch_file=c.file, ch_func=c.func, ch_timeout=c.timeout, note=c.proves)
+        if c.name.startswith(NOT_REGISTERED):
+            continue
+        kfid = 'C09-mixed-witness-multisig-hybrid-path' if c.name in MIXED_MULTISIG_DEVIATIONS else None
+        j = Job(c.name, engine='ch', ch_file=c.file, ch_func=c.func, ch_timeout=c.timeout, note=c.proves, known_finding=kfid)
         j.cost = c.cost
         out.append(j)
     return out
